@@ -130,7 +130,7 @@ var staleTmp = func() []byte {
 func TestC18(t *testing.T) {
 	env := kit.GetEnv()
 	rep := kit.NewReport("C18", env)
-	rep.Rule = "states: {0,1,2,5} routers x {0,1,2,5} mappings x 3 field-value flavours (empty, unicode, 4 kB, JSON-hostile strings; nil/present public info; offline flag; used / unused / used-at present but zero; zero creation time) plus 50 and 200 entries; previous file: absent, or the complete file of another state, optionally with a long partially written temporary file left by an earlier crashed shutdown; for each (previous, new) pair the real Stop() is run once to log its file-system steps, then re-run for EVERY crash point: before every step and at every byte offset of every write (states of 50/200 entries, and in the quick tier all writes above 6 kB: every offset in the first and last 1 kB of each write and every 97th in between); after each crash the real NewJSONFileStorage loads the image; plus save->load round trip of every state; plus restarted sessions: load an existing file, every sequence of <= 2 operations out of 13 (look-ups of known/unknown routers, save/delete of routers and mappings, queries, prune, nothing), shutdown, load - content equal to the content before shutdown; non-trivial = crash points strictly inside a write or between steps of the save; distinct = distinct (previous, new, crash point)"
+	rep.Rule = "states: {0,1,2,5} routers x {0,1,2,5} mappings x 3 field-value flavours (empty, unicode, 4 kB, JSON-hostile strings; nil/present public info; offline flag; used / unused / used-at present but zero; zero creation time) plus 50 and 200 entries; previous file: absent, or the complete file of another state, optionally with a long partially written temporary file left by an earlier crashed shutdown; for each (previous, new) pair the real Stop() is run once to log its file-system steps, then re-run for EVERY crash point: before every step and at every byte offset of every write (states of 50/200 entries, and in the quick tier all writes above 6 kB: every offset in the first and last 1 kB of each write and every 97th in between); after each crash the real NewJSONFileStorage loads the image; plus save->load round trip of every state; plus restarted sessions: load an existing file, every sequence of <= 2 operations out of 14 (look-ups of known/unknown routers, save/delete of routers and mappings, deletion of everything the state holds, queries, prune, nothing), shutdown, load - content equal to the content before shutdown; non-trivial = crash points strictly inside a write or between steps of the save; distinct = distinct (previous, new, crash point)"
 	rep.Assumptions = []string{
 		"crash model = process kill: completed file-system steps persist, an in-progress write persists an arbitrary prefix (the statement's model); power-loss reordering is out of scope",
 		"the storage package is compiled with its os import rewritten to the vos shim; if it uses an os API the shim lacks, the harness fails to build (exit 2) instead of passing",
@@ -324,6 +324,16 @@ func TestC18(t *testing.T) {
 		{"DeleteMapping(known)", func(s *storage.JSONFileStorage) { _ = s.DeleteMapping("name1-" + strFlavour(1, 1) + ".myco") }},
 		{"QueryMappings", func(s *storage.JSONFileStorage) { _, _ = s.QueryMappings("name") }},
 		{"Prune(2)", func(s *storage.JSONFileStorage) { s.Prune(2) }},
+		// everything the loaded state holds is deleted: the EMPTY state must replace the file's content.
+		{"DeleteEverything", func(s *storage.JSONFileStorage) {
+			for i := 0; i < 5; i++ {
+				_ = s.DeleteRouter(fakeAddr(i + 1000).IP)
+			}
+			ms, _ := s.QueryMappings("")
+			for _, mp := range ms {
+				_ = s.DeleteMapping(mp.Domain)
+			}
+		}},
 		{"Size", func(s *storage.JSONFileStorage) { _ = s.Size() }},
 		{"nothing", func(s *storage.JSONFileStorage) {}},
 	}
